@@ -449,6 +449,39 @@ def cross_bucket_cases(rng):
                 out.append(case("dec", ty, enc(v), fam="cross-bucket:" + ty, expect_re=r"ok .*"))
     return out
 
+
+def registered_extra_cases(which):
+    """every REGISTERED label that the crate stores as an uninterpreted extra (header parameters other than 1..7 and the
+    header-algorithm parameters; the per-key-type key parameters; the non-core claims) x value shapes a type-aware
+    normaliser might touch (a lone byte string, a one-element array of byte strings, two elements, nested, text, int, nil):
+    kept as they are, re-encoded as they are"""
+    import tables as _tb
+    out = []
+    shapes = [B(b"cert"), A(B(b"cert")), A(B(b"c1"), B(b"c2")), A(A(B(b"c"))), A(I(1)), A(T("u")), T("https://x"), I(-8), NULL, A(), M(), M((I(1), B(b"c"))), A(I(-8), B(b"h")), G(24, B(b"c"))]
+    def emit(ty, b, fam):
+        out.append(case("rt", ty, b, fam="registered-extra-rt:" + fam, expect="ok %s T T" % b.hex()))
+        out.append(case("dec", ty, b, fam="registered-extra:" + fam, expect_re=r"ok .*"))
+    if "Header" in which:
+        labs = sorted(set(v for r in ("HeaderParameter", "HeaderAlgorithmParameter") for v in _tb.REG[r] if not 1 <= v <= 7))
+        for lab in labs:
+            for v in shapes:
+                h = M((I(lab), v))
+                emit("Header", enc(h), "header")
+                emit("CoseSign1", enc(A(B(b""), h, NULL, B(b"s"))), "unprotected")
+                emit("CoseEncrypt", enc(A(B(b""), M(), NULL, A(A(B(b""), h, NULL)))), "recipient-unprotected")
+    if "CoseKey" in which:
+        labs = sorted(set(v for r in ("OkpKeyParameter", "Ec2KeyParameter", "RsaKeyParameter", "SymmetricKeyParameter", "HssLmsKeyParameter", "WalnutDsaKeyParameter") for v in _tb.REG[r]))
+        for kty in sorted(_tb.REG["KeyType"]):
+            if kty == 0: continue
+            for lab in labs[:8] if kty != 3 else labs:
+                for v in shapes[:8]:
+                    emit("CoseKey", enc(M((I(1), I(kty)), (I(lab), v))), "key")
+    if "ClaimsSet" in which:
+        for lab in sorted(v for v in _tb.REG["CwtClaimName"] if not 1 <= v <= 7):
+            for v in shapes:
+                emit("ClaimsSet", enc(M((I(lab), v))), "claims")
+    return out
+
 # ================================================================= C16
 def label_palette():
     ints = sorted(set(x for x in LATTICE if -2**63 <= x < 2**63) | {2, 10, 22, 25, 100, 1000, -2, -10, -23, -26, -100, -1000,
@@ -511,6 +544,14 @@ def cases_C16(rng, tier):
         for order in ("Lexicographic", "LengthFirstLexicographic"):
             out.append(case("canon", order, enc(d), fam="sort-map-keys", check=chk_sorted(order)))
     out += [c for c in extreme_pair_cases() if c["line"].startswith("cmp ")]
+    # labels as produced by the BUILDERS: the range guards of the label-taking calls decide which variant a label gets
+    # (a private-use variant holding a registered value would compare Equal to, yet differ from, the registered variant)
+    import tables as _tb
+    for l in sorted(set([-65538, -65537, -65536, -65535, -1000, -261, -260, -259, -258, -257, -256, -255, -1, 0, 1, 7, 8, 40, 100, 2**63 - 1, -2**63] + list(_tb.REG["CwtClaimName"]))):
+        out.append(case("build", "ClaimsSet", enc(A(A(T("private_claim"), I(l), I(0)))), fam="builder-label:private_claim", may_panic=True))
+        out.append(case("build", "ClaimsSet", enc(A(A(T("claim"), I(l), I(0)))), fam="builder-label:claim", may_panic=True))
+        out.append(case("build", "Header", enc(A(A(T("value"), I(l), I(0)))), fam="builder-label:value", may_panic=True))
+        out.append(case("build", "CoseKey", enc(A(A(T("param"), I(l), I(0)))), fam="builder-label:param", may_panic=True))
     return out
 
 # ================================================================= C17
@@ -591,7 +632,13 @@ def cases_C17(rng, tier):
                  ("encrypt0-alg-with-ciphertext", "CoseEncrypt0", lambda x: b"\x83" + enc(B(b"\xa1\x01" + x)) + b"\xa0\x41\x63"),
                  ("sign-alg-with-signers", "CoseSign", lambda x: b"\x84" + enc(B(b"\xa1\x01" + x)) + b"\xa0\x41\x70\x82\x83\x40\xa0\x40\x83\x40\xa0\x40"),
                  ("sign-alg-no-signers", "CoseSign", lambda x: b"\x84\x40\xa1\x01" + x + b"\xf6\x80"),
-                 ("encrypt-alg-no-recipients", "CoseEncrypt", lambda x: b"\x84\x40\xa1\x01" + x + b"\xf6\x80"))
+                 ("encrypt-alg-no-recipients", "CoseEncrypt", lambda x: b"\x84\x40\xa1\x01" + x + b"\xf6\x80"),
+                 ("supp-pub-prot-alg", "SuppPubInfo", lambda x: b"\x82\x18\x80" + enc(B(b"\xa1\x01" + x))),
+                 ("supp-pub-prot-crit", "SuppPubInfo", lambda x: b"\x83\x18\x80" + enc(B(b"\xa1\x02\x81" + x)) + b"\x41\x6f"),
+                 ("supp-pub-prot-ct", "SuppPubInfo", lambda x: b"\x82\x18\x80" + enc(B(b"\xa1\x03" + x))),
+                 ("kdf-supp-pub-prot-alg", "CoseKdfContext", lambda x: b"\x84\x01\x83\xf6\xf6\xf6\x83\xf6\xf6\xf6\x82\x18\x80" + enc(B(b"\xa1\x01" + x))),
+                 ("kdf-supp-pub-prot-crit", "CoseKdfContext", lambda x: b"\x85\x01\x83\xf6\xf6\xf6\x83\xf6\xf6\xf6\x82\x18\x80" + enc(B(b"\xa1\x02\x81" + x)) + b"\x41\x70"),
+                 ("kdf-supp-pub-countersig-alg", "CoseKdfContext", lambda x: b"\x84\x01\x83\xf6\xf6\xf6\x83\xf6\xf6\xf6\x82\x18\x80" + enc(B(b"\xa1\x07\x83\x40\xa1\x01" + x + b"\x40"))))
     pwin = list(range(-300, 300)) + [-65535, -65536, -65537, 10000, 11060, 11542, 11543, 65535]
     if tier != "quick": pwin = sorted(set(pwin) | set(range(-1000, 12000)))
     import tables as _tb
@@ -615,7 +662,7 @@ def cases_C17(rng, tier):
         for reg in _tbl.REG.values():
             names += list(reg.values())[:4]
         for t in sorted(set(names + [x.lower() for x in names] + [x.upper() for x in names])):
-            if name in ("content-format", "protected-ct", "countersig-ct", "ct-after-alg", "countersig-list1-ct"):
+            if name in ("content-format", "protected-ct", "countersig-ct", "ct-after-alg", "countersig-list1-ct", "supp-pub-prot-ct"):
                 out.append(case("dec", ty, wrap(enc(T(t))), fam="position-text:" + name))     # content types have their own text rules
             elif ty == "CoseKdfContext":
                 out.append(case("dec", ty, wrap(enc(T(t))), fam="position-text:" + name, expect_re=r"ok enc=[0-9a-f]*" + enc(T(t)).hex() + r"[0-9a-f]*"))
@@ -1545,6 +1592,11 @@ def cases_C07(rng, tier):
     out += [c for c in depth_sweep_cases(("Header", "CoseKey", "CoseKeySet", "ClaimsSet", "CoseSign1", "CoseEncrypt0", "CoseMac", "CoseSign")) if not c["line"].startswith("dec ")]
     out += protected_nesting_cases(ops=("rt",))
     out += [c for c in text_sweep_cases(("ClaimsSet", "Header", "CoseKey")) if c["line"].startswith("rt ")]
+    out += [c for c in registered_extra_cases(("Header", "CoseKey", "ClaimsSet")) if c["line"].startswith("rt ")]
+    # every input of the duplicate-label families (C12) through the round trip as well: whatever is accepted re-encodes
+    for c in cases_C12(random_from(rng), "quick"):
+        if c["line"].startswith("dec "):
+            out.append({"line": "rt " + c["line"][4:], "fam": "rt-of-dup-families"})
     return out
 
 def post_C07(cases, impl):
@@ -1556,7 +1608,7 @@ def post_C07(cases, impl):
         if not c["fam"].startswith("rt"): continue
         if o.startswith("rej"): continue
         if re.fullmatch(r"ok [0-9a-f]* T T", o) or o == "ok  T T": continue
-        d = decs.get(c["key"], "")
+        d = decs.get(c.get("key"), "")
         if SHORT_BIGNUM_RE.search(d):
             c["short_bignum"] = True
         probs.append((c, o, "decode/encode does not reach a fixed point in one step (decoded: %s)" % d[:160]))
@@ -1616,6 +1668,7 @@ def cases_C08(rng, tier):
     out += typed_field_kind_cases(("Header",))
     out += text_sweep_cases(("Header",))
     out += cross_bucket_cases(rng)
+    out += registered_extra_cases(("Header",))
     return out
 
 def post_groups(cases, impl):
@@ -1720,6 +1773,22 @@ def cases_C09(rng, tier):
                         out.append(case("dec", ty, enc(A(B(b""), M(), NULL, A(A(G(t, B(b"")), M(), B(b"s"))))), fam="tagged-bstr-in-nested-slot", expect_re=r"err:\w+"))
                         out.append(case("dec", ty, enc(A(B(b""), M(), NULL, A(A(B(b""), M(), G(t, B(b"s")))))), fam="tagged-bstr-in-nested-slot", expect_re=r"err:\w+"))
     out += [c for c in cross_bucket_cases(rng) if c["line"].split()[1] in MSG_TYPES]
+    # lists of signers / recipients in which ONE entry names each registered algorithm (either bucket, either position):
+    # a list is accepted iff each entry is, whatever the entries say about each other
+    import tables as _tb
+    for v in sorted(_tb.REG["Algorithm"]) + [-65537]:
+        for prot in (False, True):
+            for idx in (0, 1):
+                def entry(i, kind):
+                    h = M((I(1), I(v))) if i == idx else M((I(1), I(-3)), (I(4), B(b"k")))
+                    p_, u_ = (B(enc(h)), M()) if prot else (B(b""), h)
+                    return A(p_, u_, B(b"s")) if kind == "sig" else A(p_, u_, B(b"ct"))
+                recs = A(entry(0, "rec"), entry(1, "rec")); sigs = A(entry(0, "sig"), entry(1, "sig"))
+                out.append(case("dec", "CoseEncrypt", enc(A(B(b""), M(), B(b"c"), recs)), fam="list-with-alg:CoseEncrypt", expect_re=r"ok .*"))
+                out.append(case("dec", "CoseMac", enc(A(B(b""), M(), NULL, B(b"t"), recs)), fam="list-with-alg:CoseMac", expect_re=r"ok .*"))
+                out.append(case("dec", "CoseRecipient", enc(A(B(b""), M(), NULL, recs)), fam="list-with-alg:CoseRecipient", expect_re=r"ok .*"))
+                out.append(case("dec", "CoseSign", enc(A(B(b""), M(), NULL, sigs)), fam="list-with-alg:CoseSign", expect_re=r"ok .*"))
+                out.append(case("dec", "Header", enc(M((I(7), sigs))), fam="list-with-alg:countersignatures", expect_re=r"ok .*"))
     return out
 
 # ================================================================= C10
@@ -1749,6 +1818,7 @@ def cases_C10(rng, tier):
     out += depth_sweep_cases(("CoseKey", "CoseKeySet"))
     out += typed_field_kind_cases(("CoseKey",))
     out += text_sweep_cases(("CoseKey",))
+    out += registered_extra_cases(("CoseKey",))
     return out
 
 # ================================================================= C18
@@ -1795,6 +1865,7 @@ def cases_C18(rng, tier):
     out += typed_field_kind_cases(("ClaimsSet", "CoseKdfContext"))
     out += [c for c in extreme_pair_cases() if " ClaimsSet " in c["line"]]
     out += text_sweep_cases(("ClaimsSet", "CoseKdfContext"))
+    out += registered_extra_cases(("ClaimsSet",))
     return out
 
 # ================================================================= C11
@@ -1898,6 +1969,7 @@ def cases_C11(rng, tier):
         for ty, tail in (("CoseRecipient", [NULL, ('a', [])]), ("CoseSignature", [B(b"s")]), ("CoseEncrypt0", [NULL])):
             d = ('a', [d_protected(None, d_header(kid=b"pk")), d_header(alg=d_reg(1, v))] + tail)
             out.append(case("enc", ty, enc(d), fam="alg-sweep:" + ty, expect="ok " + enc(pyspec.wire_value(ty, d)).hex()))
+    out += [c for c in registered_extra_cases(("Header", "CoseKey", "ClaimsSet")) if c["line"].startswith("rt ")]
     return out
 
 # ================================================================= C12
